@@ -216,11 +216,13 @@ func runC01(c *core.Ctx) {
 		{"quorum-now", "T(ssv-spec/qbft.HasQuorum(p0.State.Share, ssv-spec/qbft.MsgContainer.MessagesForRound@2(p3, p0.State.Round)))", "commit stage requires a prepare quorum for the current round"},
 		{"no-quorum-before", "F(ssv-spec/qbft.HasQuorum(p0.State.Share, ssv-spec/qbft.MsgContainer.MessagesForRound(p3, p0.State.Round)))", "the commit is sent once, on the first quorum"},
 		{"first-from-signer", "T(ssv-spec/qbft.MsgContainer.AddFirstMsgForSignerAndRound(p3, p2)#0)", ""},
+		{"prepared-round-recorded-first", "stored(p0.State.LastPreparedRound, p0.State.Round)", "the lock on the prepared value must be recorded BEFORE the commit can leave the node: if the broadcast fails half-way the operator has committed but would later report 'not prepared', and the next leader may propose another value"},
+		{"prepared-value-recorded-first", "stored(p0.State.LastPreparedValue, p0.State.ProposalAcceptedForCurrentRound.FullData)", "the prepared value is the accepted proposal's data, recorded before the commit is created and sent"},
 	}
 	n = atCalls(c, "C01-R4", up, iN+"CreateCommit", fresh)
 	n += atCalls(c, "C01-R4", up, iN+"Instance.Broadcast", fresh)
-	n += atStores(c, "C01-R4", up, spec+"qbft.State.LastPreparedRound", fresh)
-	n += atStores(c, "C01-R4", up, spec+"qbft.State.LastPreparedValue", fresh)
+	n += atStores(c, "C01-R4", up, spec+"qbft.State.LastPreparedRound", fresh[:len(fresh)-2])
+	n += atStores(c, "C01-R4", up, spec+"qbft.State.LastPreparedValue", fresh[:len(fresh)-2])
 	c.Min("C01-R4", n, 4, "prepare-quorum effects in uponPrepare")
 	for _, d := range []struct{ callee, typ string }{
 		{"Instance.uponProposal", "0"}, {"Instance.uponPrepare", "1"}, {"Instance.UponCommit", "2"}, {"Instance.uponRoundChange", "3"},
@@ -297,10 +299,12 @@ func runC01(c *core.Ctx) {
 // packages sets SignatureVerification to the constant true, and a literal
 // that sets ProposerF sets it to a function that returns
 // specqbft.RoundRobinProposer(state, round).
-func checkConfigLiterals(c *core.Ctx) {
+func checkConfigLiterals(c *core.Ctx) { checkConfigLiteralsRule(c, "C01-R6") }
+
+func checkConfigLiteralsRule(c *core.Ctx, rule string) {
 	cfgT, err := c.P.LookupType(ssv + "protocol/v2/qbft.Config")
 	if err != nil {
-		c.Undischarged("C01-R6", "anchor:qbft.Config", err.Error())
+		c.Undischarged(rule, "anchor:qbft.Config", err.Error())
 		return
 	}
 	n, np := 0, 0
@@ -342,18 +346,18 @@ func checkConfigLiterals(c *core.Ctx) {
 								ok = true
 							}
 						}
-						c.Decide(ok, "C01-R6", "qbft.Config literal in "+encl+"|ProposerF", c.P.Pos(kv.Pos()),
+						c.Decide(ok, rule, "qbft.Config literal in "+encl+"|ProposerF", c.P.Pos(kv.Pos()),
 							"leader function is specqbft.RoundRobinProposer(state, round)", "the production leader function is not the round-robin proposer of the protocol (all operators must compute the same leader)")
 					}
 				}
-				c.Decide(sv, "C01-R6", "qbft.Config literal in "+encl+"|SignatureVerification", c.P.Pos(cl.Pos()),
+				c.Decide(sv, rule, "qbft.Config literal in "+encl+"|SignatureVerification", c.P.Pos(cl.Pos()),
 					"SignatureVerification: true", "a production qbft.Config does not enable signature verification: every BLS check inside the instance is skipped")
 				return true
 			})
 		}
 	}
-	c.Min("C01-R6", n, 2, "qbft.Config literals in node packages")
-	c.Min("C01-R6", np, 1, "ProposerF settings")
+	c.Min(rule, n, 2, "qbft.Config literals in node packages")
+	c.Min(rule, np, 1, "ProposerF settings")
 }
 
 func enclosingFuncName(info *types.Info, file *ast.File, n ast.Node) string {
